@@ -161,6 +161,27 @@ func main() {
 				}
 			}
 		}
+		if w != nil {
+			// how the tree was read: helpers spliced into their callers, handlers read in place, renamed private names
+			var spliced, virt []string
+			for h := range w.inlSites {
+				spliced = append(spliced, rawName(h))
+			}
+			for f := range w.virt {
+				virt = append(virt, fname(f))
+			}
+			sort.Strings(spliced)
+			sort.Strings(virt)
+			if len(spliced) > 0 {
+				info.Extra["spliced_fresh_helpers"] = spliced
+			}
+			if len(virt) > 0 {
+				info.Extra["handlers_read_in_place"] = virt
+			}
+			if len(typeRenameTo) > 0 {
+				info.Extra["renamed_private_types"] = typeRenameTo
+			}
+		}
 		info.Wall = time.Since(t0).Seconds()
 		if len(ids) == 1 {
 			info.Wall = time.Since(start).Seconds()
